@@ -11,6 +11,19 @@ package parser
 //@   && TokLines(p.peek3Token, p.l.lineNumber) && TokLines(p.peek4Token, p.l.lineNumber)
 //@   && p.curToken.LineNumber <= p.peekToken.LineNumber && p.peekToken.LineNumber <= p.peek2Token.LineNumber && p.peek2Token.LineNumber <= p.peek3Token.LineNumber
 //@   && p.peek3Token.LineNumber <= p.peek4Token.LineNumber && p.peek4Token.LineNumber <= MinLine(p.l)
+//@   && (NoNul(p.l.input) ==> EofAbsorb(p))
+
+// ---- termination of the parser's loops (C18) ----
+// Left(p): what is left to read: bytes of input not yet lexed, tokens queued in the lexer, non-EOF tokens in the window.
+// Every nextToken lowers it by one unless the current token is EOF already; every parse function leaves it no larger,
+// and strictly smaller if it arrives at EOF from a non-EOF token. Under A-nonul an EOF token means the end of input
+// (EofAbsorb), which is what lets a loop that saw a non-EOF token conclude that it consumed one.
+//@ pred NTok(t token.Token) = (t.Type != token.EOF ? 1 : 0)
+//@ pred Left(p *Parser) = (slen(p.l.input) - p.l.position) + len(p.l.queuedTokens) + NTok(p.curToken) + NTok(p.peekToken) + NTok(p.peek2Token) + NTok(p.peek3Token) + NTok(p.peek4Token)
+//@ pred EofAbsorb(p *Parser) = (p.curToken.Type == token.EOF ==> p.peekToken.Type == token.EOF) && (p.peekToken.Type == token.EOF ==> p.peek2Token.Type == token.EOF)
+//@   && (p.peek2Token.Type == token.EOF ==> p.peek3Token.Type == token.EOF) && (p.peek3Token.Type == token.EOF ==> p.peek4Token.Type == token.EOF)
+//@   && (p.peek4Token.Type == token.EOF ==> AtEnd(p.l))
+//@ pred Consumed(p *Parser, left0 int, cur0 token.Token) = Left(p) <= left0 && ((cur0.Type != token.EOF && p.curToken.Type == token.EOF) ==> Left(p) < left0)
 
 // errors are built from tokens with a proper line range: 1 <= start <= end (C18)
 // a token taken from the source: it has a line range 1 <= first <= last (C16: markers name real lines; C18: located errors)
@@ -84,6 +97,8 @@ package parser
 //@   modifies p.curToken, p.peekToken, p.peek2Token, p.peek3Token, p.peek4Token, fields(p.l)
 //@   ensures [C18:window] PLex(p) && p.l == old(p.l) && p.l.input == old(p.l.input) && old(p.l.lineNumber) <= p.l.lineNumber
 //@   ensures [C16,C18:window-new] TokLines(p.peek4Token, p.l.lineNumber) && old(MinLine(p.l)) <= p.peek4Token.LineNumber && p.peek4Token.LineNumber <= MinLine(p.l)
+//@   ensures [C18:consume] Left(p) <= old(Left(p)) - old(NTok(p.curToken))
+//@   ensures [C18:window-eof] NoNul(p.l.input) ==> ((p.peek4Token.Type == token.EOF ==> AtEnd(p.l)) && (old(AtEnd(p.l)) ==> p.peek4Token.Type == token.EOF))
 //@   ensures [C18,C20:shift] p.curToken == old(p.peekToken) && p.peekToken == old(p.peek2Token) && p.peek2Token == old(p.peek3Token) && p.peek3Token == old(p.peek4Token)
 //@ end
 
@@ -96,6 +111,8 @@ package parser
 //@   ensures [C18:expect-stay] result != nil ==> (p.curToken == old(p.curToken) && p.peekToken == old(p.peekToken) && p.peek2Token == old(p.peek2Token) && boxis(result, ParseError) && result.LineNumberStart == p.peekToken.LineNumber && result.LineNumberEnd == p.peekToken.EndLineNumber)
 //@   ensures [C18:lines-mono] old(p.curToken.LineNumber) <= p.curToken.LineNumber
 //@   ensures [C18:located] result != nil ==> ErrLoc(result)
+//@   ensures [C18:consume] Consumed(p, old(Left(p)), old(p.curToken))
+//@   ensures [C18:consume-ok] result == nil ==> Left(p) <= old(Left(p)) - old(NTok(p.curToken))
 //@ end
 
 // ---- scope modifiers (C15) ----
@@ -113,6 +130,7 @@ package parser
 //@   ensures [C15:mod-error] (old(p.peekToken.Type) == token.LPAREN && !((old(p.peek2Token.Type) == token.GLOBAL || old(p.peek2Token.Type) == token.LOCAL) && old(p.peek3Token.Type) == token.RPAREN)) ==> result1 != nil
 //@   ensures [C18:lines-mono] old(p.curToken.LineNumber) <= p.curToken.LineNumber
 //@   ensures [C18:located] result1 != nil ==> ErrLoc(result1)
+//@   ensures [C18:consume] Consumed(p, old(Left(p)), old(p.curToken))
 //@ end
 
 // ---- format() (C07, C17, C18) ----
@@ -255,6 +273,10 @@ package parser
 //@   requires [C18:pstate] PState(p)
 //@   ensures [C18:lines-mono] old(p.curToken.LineNumber) <= p.curToken.LineNumber
 //@   loopinv [C18:lines-mono-inv] old(p.curToken.LineNumber) <= p.curToken.LineNumber && pre(p.curToken.LineNumber) <= p.curToken.LineNumber
+//@   ensures [C18:consume] Consumed(p, old(Left(p)), old(p.curToken))
+//@   loopinv [C18:consume-inv] Consumed(p, old(Left(p)), old(p.curToken))
+//@   loopdecr [C18:term] Left(p)
+//@   termassume NoNul(p.l.input)
 //@   modifies p.curToken, p.peekToken, p.peek2Token, p.peek3Token, p.peek4Token, p.breakStack, p.continueStack, p.fonts, fields(p.l)
 //@   ensures [C18:pstate] PState(p) && PSame(p, old(p.l), old(p.l.input)) && PMaps(p, old(p.constants), old(p.inlineTextsSet), old(p.inlineTextCounts), old(p.inlineMovementsSet), old(p.inlineMovementCounts))
 //@   loopinv [C18:pstate-inv] PState(p) && PSame(p, old(p.l), old(p.l.input)) && PMaps(p, old(p.constants), old(p.inlineTextsSet), old(p.inlineTextCounts), old(p.inlineMovementsSet), old(p.inlineMovementCounts))
@@ -267,6 +289,10 @@ package parser
 //@   requires [C18:pstate] PState(p)
 //@   ensures [C18:lines-mono] old(p.curToken.LineNumber) <= p.curToken.LineNumber
 //@   loopinv [C18:lines-mono-inv] old(p.curToken.LineNumber) <= p.curToken.LineNumber && pre(p.curToken.LineNumber) <= p.curToken.LineNumber
+//@   ensures [C18:consume] Consumed(p, old(Left(p)), old(p.curToken))
+//@   loopinv [C18:consume-inv] Consumed(p, old(Left(p)), old(p.curToken))
+//@   loopdecr [C18:term] Left(p)
+//@   termassume NoNul(p.l.input)
 //@   modifies fields(p), fields(p.l)
 //@   ensures [C18:pstate] PState(p) && PSame(p, old(p.l), old(p.l.input)) && PMaps(p, old(p.constants), old(p.inlineTextsSet), old(p.inlineTextCounts), old(p.inlineMovementsSet), old(p.inlineMovementCounts))
 //@   loopinv [C18:pstate-inv] PState(p) && PSame(p, old(p.l), old(p.l.input)) && PMaps(p, old(p.constants), old(p.inlineTextsSet), old(p.inlineTextCounts), old(p.inlineMovementsSet), old(p.inlineMovementCounts))
@@ -279,6 +305,10 @@ package parser
 //@   requires [C18:pstate] PState(p)
 //@   ensures [C18:lines-mono] old(p.curToken.LineNumber) <= p.curToken.LineNumber
 //@   loopinv [C18:lines-mono-inv] old(p.curToken.LineNumber) <= p.curToken.LineNumber && pre(p.curToken.LineNumber) <= p.curToken.LineNumber
+//@   ensures [C18:consume] Consumed(p, old(Left(p)), old(p.curToken))
+//@   loopinv [C18:consume-inv] Consumed(p, old(Left(p)), old(p.curToken))
+//@   loopdecr [C18:term] Left(p)
+//@   termassume NoNul(p.l.input)
 //@   ensures [C18:pstate] PState(p) && PSame(p, old(p.l), old(p.l.input)) && PMaps(p, old(p.constants), old(p.inlineTextsSet), old(p.inlineTextCounts), old(p.inlineMovementsSet), old(p.inlineMovementCounts))
 //@   loopinv [C18:pstate-inv] PState(p) && PSame(p, old(p.l), old(p.l.input)) && PMaps(p, old(p.constants), old(p.inlineTextsSet), old(p.inlineTextCounts), old(p.inlineMovementsSet), old(p.inlineMovementCounts))
 //@ end
